@@ -69,10 +69,10 @@ def random_float(rng):
     return round(rng.uniform(0.001, 5000), rng.randint(0, 7)) or 1.0
 
 
-def g_sweep(run: Run, n_random):
+def g_sweep(run: Run, n_random, boundary=True):
     from periodictable.formulas import formula
     import periodictable as pt
-    xs = boundary_floats()
+    xs = boundary_floats() if boundary else []
     nb = len(xs)
     xs += [random_float(run.rng) for _ in range(n_random)]
     xs = [x for x in xs if x > 0 and math.isfinite(x)]
@@ -377,23 +377,50 @@ CORPUS = [
 ]
 
 
-def run(run: Run) -> int:
-    pt = import_repo()
+_TABLES = {}
+
+
+def tables(tname):
+    if tname not in _TABLES:
+        pt = import_repo()
+        ref = G.ref_table()
+        if tname == "public":
+            _TABLES[tname] = (ref, pt.elements, ["tblgen"])
+        else:
+            alt = G.altered_table(ref)
+            _TABLES[tname] = (alt, G.private_python_table(alt), G.table_lines(alt))
+    return _TABLES[tname]
+
+
+def chunk_formulas(run: Run, tname, n, maxdepth, corpus):
     from periodictable.formulas import formula
+    ref, tbl, prefix = tables(tname)
+    if corpus:
+        items = [(src, formula(G.struct_objs(s, tbl))) for src, s in CORPUS]
+        check_formulas(run, tname, ref, tbl, prefix, items)
+    items = gen_formulas(run.rng, ref, tbl, n, maxdepth)
+    check_formulas(run, tname, ref, tbl, prefix, items)
+
+
+def chunk_g(run: Run, n_random, boundary):
+    g_sweep(run, n_random, boundary)
+
+
+def run(run: Run) -> int:
+    import_repo()
     run.prove(generated=["ElementBase", "IsotopeList"])
-    ref = G.ref_table()
+    tables("public")
+    tables("private")
     quick = run.tier == "quick"
-    g_sweep(run, 1500 if quick else 150000)
-    items = [(src, formula(G.struct_objs(s, pt.elements))) for src, s in CORPUS]
-    check_formulas(run, "public", ref, pt.elements, ["tblgen"], items)
-    n = 2600 if quick else 150000
-    for i in range(0, n, 10000):
-        items = gen_formulas(run.rng, ref, pt.elements, min(10000, n - i), maxdepth=4 if quick else 6)
-        check_formulas(run, "public", ref, pt.elements, ["tblgen"], items)
-    alt = G.altered_table(ref)
-    priv = G.private_python_table(alt)
-    items = gen_formulas(run.rng, alt, priv, n // 5, maxdepth=3)
-    check_formulas(run, "private", alt, priv, G.table_lines(alt), items)
+    if quick:
+        tasks = [(chunk_g, (1500, True))]
+        tasks += [(chunk_formulas, ("public", 450, 4, i == 0)) for i in range(6)]
+        tasks += [(chunk_formulas, ("private", 250, 3, False)) for i in range(2)]
+    else:
+        tasks = [(chunk_g, (20000, i == 0)) for i in range(8)]
+        tasks += [(chunk_formulas, ("public", 2500, 4 + i % 3, i == 0)) for i in range(72)]
+        tasks += [(chunk_formulas, ("private", 2000, 3 + i % 2, False)) for i in range(16)]
+    G.run_chunks(run, tasks)
     return run.finish(RULE, assumptions=[
         "pyparsing's combinator semantics are modelled (Model/Grammar.lean), not verified",
         "CPython's '%g' is modelled by fmtG6 (round-half-even on the exact binary value) and compared "
@@ -427,16 +454,16 @@ def replay(data) -> int:
             return [(Fraction(c), tuple(f) if len(f) == 3 and all(isinstance(x, int) for x in f) else back(f))
                     for c, f in s]
         ex = back(inp["structure"])
-        if inp.get("table") == "private":
-            r = G.altered_table(ref)
-            tbl, prefix = G.private_python_table(r), G.table_lines(r)
-        else:
-            tbl, prefix = pt.elements, ["tblgen"]
-        f = formula(G.struct_objs(_to_py(ex), tbl), name=inp.get("name"))
+        _r, tbl, prefix = tables(inp.get("table", "public"))
+        print("structure", G.show_struct(ex))
+        try:
+            f = formula(G.struct_objs(_to_py(ex), tbl), name=inp.get("name"))
+        except Exception as e:  # noqa
+            print("  real code: the structure cannot be built on this tree (%s: %s)" % (type(e).__name__, e))
+            continue
         s = str(f)
         p = G.py_parse(s, tbl)
         rep = G.driver(prefix + ["print " + G.qitems_tokens(ex), "roundtrip " + G.qitems_tokens(ex)])[len(prefix):]
-        print("structure", G.show_struct(ex))
         print("  real code: str = %r, parsed back = %s" % (s, G.show_struct(p[1]) if p[0] == "OK" else p))
         print("  model    : str = %r, roundtrip = %s" % (G.dec(rep[0].split()[1]), rep[1]))
         print("  oracle   : rounded to six digits, same nesting = %s" % G.show_struct(G.plain_round(ex)))
